@@ -17,6 +17,10 @@ pub enum Op {
   HClone { from: usize, to: usize },
   /// call getter g on the value in slot
   HGet { slot: usize, g: i64 },
+  /// to := (LunarHour in from).get_lunar_day()
+  HDay { from: usize, to: usize },
+  /// to := (LunarDay in from).get_hours()[k]
+  HHour { from: usize, to: usize, k: usize },
 }
 
 pub const SLOTS: usize = 4;
@@ -45,6 +49,8 @@ impl Op {
       Op::HNext { slot, n } => format!("hnext {} {}", slot, n),
       Op::HClone { from, to } => format!("hclone {} {}", from, to),
       Op::HGet { slot, g } => format!("hget {} {}", slot, g),
+      Op::HDay { from, to } => format!("hday {} {}", from, to),
+      Op::HHour { from, to, k } => format!("hhour {} {} {}", from, to, k),
     }
   }
 
@@ -69,6 +75,8 @@ impl Op {
       }
       Some("hnext") if tokens.len() == 3 => Ok(Op::HNext { slot: (num(tokens[1])? as usize).min(SLOTS - 1), n: num(tokens[2])? }),
       Some("hclone") if tokens.len() == 3 => Ok(Op::HClone { from: (num(tokens[1])? as usize).min(SLOTS - 1), to: (num(tokens[2])? as usize).min(SLOTS - 1) }),
+      Some("hday") if tokens.len() == 3 => Ok(Op::HDay { from: (num(tokens[1])? as usize).min(SLOTS - 1), to: (num(tokens[2])? as usize).min(SLOTS - 1) }),
+      Some("hhour") if tokens.len() == 4 => Ok(Op::HHour { from: (num(tokens[1])? as usize).min(SLOTS - 1), to: (num(tokens[2])? as usize).min(SLOTS - 1), k: (num(tokens[3])? as usize).min(12) }),
       Some("hget") if tokens.len() == 3 => Ok(Op::HGet { slot: (num(tokens[1])? as usize).min(SLOTS - 1), g: num(tokens[2])? }),
       _ => Err(format!("unknown op: {:?}", tokens)),
     }
